@@ -1,5 +1,6 @@
 """C01-D4 — hand-written leaf codecs (strings, packed guid): bounded abstract interpretation over all input classes."""
 from ..facts import facts
+from .. import hir as H
 from ..minieval import Mini, Panic, Sink, Stream, Tok, Unsupported, Wide, to_wide
 
 EXTRA = 4  # bytes of the *next* member placed after the leaf's own bytes: none of them may be consumed
@@ -315,6 +316,7 @@ def check_builtins(ctx, FB):
             if err or s2 != len(body):
                 ctx.violate("builtin.siblings", key + "|size", f"monster_move_spline_size() = {s2 if not err else err} for {n} points that are written as {len(body)} bytes", sz["file"], sz["line"])
                 break
+    cases += check_wrappers(ctx, FB)
     t2, c2 = check_sentinel_arrays(ctx, FB)
     n_types += t2
     cases += c2
@@ -323,6 +325,86 @@ def check_builtins(ctx, FB):
 
 
 W = "crate::util::functions::wrath::"
+
+# hand-written value wrappers the generated codecs put between the wire and the field: (crate, decode fn, encode fn, wire bytes, float?)
+_S = "crate::manual::shared::"
+WRAPPERS = [
+    ("wow_login_messages", "<crate::manual::population::Population as std::convert::From<f32>>::from", "crate::manual::population::Population::as_int", 4, True),
+    ("wow_world_base", _S + "gold_vanilla_tbc_wrath::Gold::new", _S + "gold_vanilla_tbc_wrath::Gold::as_int", 4, False),
+    ("wow_world_base", _S + "level_vanilla_tbc_wrath::Level::new", _S + "level_vanilla_tbc_wrath::Level::as_int", 1, False),
+    ("wow_world_base", _S + "guid_vanilla_tbc_wrath::Guid::new", _S + "guid_vanilla_tbc_wrath::Guid::guid", 8, False),
+]
+
+
+def _f32(x):
+    import struct
+    return struct.unpack("<f", struct.pack("<f", x))[0]
+
+
+def _f32_next(x, up):
+    import struct
+    i = struct.unpack("<I", struct.pack("<f", x))[0]
+    i += 1 if (up == (x >= 0)) else -1
+    return struct.unpack("<f", struct.pack("<I", i & 0xFFFFFFFF))[0]
+
+
+def check_wrappers(ctx, FB):
+    """encode(decode(v)) = v for the wrapper pairs, over a domain that is exhaustive for code that only *compares* the wire
+    value with literals: the generic class (differs from every literal) + every literal + its neighbours."""
+    n = cases = 0
+    for crate, dec, enc, width, is_float in WRAPPERS:
+        F = FB[crate]
+        fd, fe = F.fn(dec), F.fn(enc)
+        key = f"{crate}::{dec}"
+        if fd is None or fe is None:
+            ctx.violate("leaf.wrappers", f"anchor|{key}", f"{dec} / {enc} not found (anchor disappeared)")
+            continue
+        n += 1
+        c = _Counter()
+        v = Wide(c.toks(width)) if width > 1 else c.toks(1)[0]
+        m = Mini(FB, crate)
+        m.generic_ne = True
+        r, err = _run(m, dec, [v])
+        lits = set(m.generic_lits or ())
+        cases += 1
+        if err is None:
+            m2 = Mini(FB, crate)
+            m2.generic_ne = True
+            e, err = _run(m2, enc, [r])
+            if err is None and e != v:
+                err = f"gives {e!r}"
+        if err:
+            ctx.violate("leaf.wrappers", f"{key}|generic", f"{enc.split('::')[-1]}({dec.split('::')[-2] if '::' in dec else dec}(v)) for a wire value v that differs from every literal in the code: {err} — "
+                        f"the value is not handed through unchanged", fd["file"], fd["line"])
+            continue
+        # literals of both bodies, and their neighbours
+        for fn in (fd, fe):
+            for x in H.walk(fn["hir"]):
+                if H.tag(x) == "lit" and x[1] in ("int", "float"):
+                    try:
+                        lits.add(float(x[2].replace("_", "").replace("f32", "")) if x[1] == "float" else int(x[2]))
+                    except ValueError:
+                        pass
+        samples = set()
+        for L in lits:
+            if is_float:
+                L = _f32(float(L))
+                samples |= {L, _f32_next(L, True), _f32_next(L, False), _f32(L + 0.5), _f32(L - 0.5)}
+            else:
+                samples |= {x for x in (L, L + 1, L - 1) if 0 <= x < (1 << (8 * width))}
+        for x in sorted(samples):
+            cases += 1
+            r, err = _run(Mini(FB, crate), dec, [x])
+            e = None
+            if err is None:
+                e, err = _run(Mini(FB, crate), enc, [r])
+            if err or e != x:
+                ctx.violate("leaf.wrappers", f"{key}|{x!r}", f"{crate}: the wire value {x!r} decodes ({dec.split('>::')[-1].split('::')[-1]}) to {r!r} and is written back ({enc.split('::')[-1]}) as {err or repr(e)}: "
+                            f"re-encoding does not reproduce the bytes", fd["file"], fd["line"])
+                break
+    ctx.rule("leaf.wrappers", n, floor=4, note=f"hand-written value wrappers (Population, Gold, Level, Guid): encode(decode(v)) = v over {cases} comparison classes (generic value, every literal, its neighbours)")
+    return cases
+
 
 
 def _opaque_datetime():
